@@ -37,9 +37,25 @@ pub fn main(args: &[String]) {
             let mut w = std::fs::OpenOptions::new().create(true).append(true).open(&args[4]).unwrap();
             std::panic::set_hook(Box::new(|_| {}));
             // load phase: everything is compiled before anything runs
+            // with a 7th argument "lazy" every case is compiled right before it runs (no load phase; for the totality check)
+            let lazy = args.get(6).map(|s| s == "lazy").unwrap_or(false);
+            let compile_case = |c: &J| {
+                let vars: Vec<String> = c["vars"].as_array().map(|a| a.iter().map(|v| v[0].as_str().unwrap().to_string()).collect()).unwrap_or_default();
+                std::panic::catch_unwind(|| compile(c["text"].as_str().unwrap(), &vars)).unwrap_or_else(|_| Err("panic in compile".into()))
+            };
             let compiled: Vec<_> = cases
                 .iter()
-                .map(|c| {
+                .enumerate()
+                .map(|(i, c)| {
+                    if c["mode"] == "diag" {
+                        return Err("diag".to_string());
+                    }
+                    if lazy && i >= from {
+                        return Err("lazy".to_string());
+                    }
+                    if i < from {
+                        return Err("skipped".to_string());
+                    }
                     let vars: Vec<String> = c["vars"].as_array().map(|a| a.iter().map(|v| v[0].as_str().unwrap().to_string()).collect()).unwrap_or_default();
                     std::panic::catch_unwind(|| compile(c["text"].as_str().unwrap(), &vars)).unwrap_or_else(|_| Err("panic in compile".into()))
                 })
@@ -47,7 +63,21 @@ pub fn main(args: &[String]) {
             marker("exec");
             for (i, c) in cases.iter().enumerate().skip(from) {
                 marker(&format!("case/{i}"));
-                let res = match &compiled[i] {
+                let now = if matches!(&compiled[i], Err(e) if e == "lazy") { Some(compile_case(c)) } else { None };
+                let res = match now.as_ref().unwrap_or(&compiled[i]) {
+                    Err(e) if e == "diag" => {
+                        // filter text: accepted, or rejected with diagnostics that render
+                        let text = c["text"].as_str().unwrap().to_string();
+                        match std::panic::catch_unwind(move || crate::run::compile_diag(&text).map(|_| ())) {
+                            Ok(Ok(())) => json!({"id": c["id"], "items": 0, "end": "accepted"}),
+                            Ok(Err(d)) if d.trim().is_empty() => json!({"id": c["id"], "items": 0, "end": "panic", "panic": "rejected without diagnostics"}),
+                            Ok(Err(d)) => json!({"id": c["id"], "items": 0, "end": "rejected", "diag": d.chars().take(120).collect::<String>()}),
+                            Err(p) => {
+                                let msg = p.downcast_ref::<String>().cloned().or_else(|| p.downcast_ref::<&str>().map(|s| s.to_string())).unwrap_or_default();
+                                json!({"id": c["id"], "items": 0, "end": "panic", "panic": msg})
+                            }
+                        }
+                    }
                     Err(e) => json!({"id": c["id"], "items": 0, "end": format!("does not compile: {e}")}),
                     Ok(filter) => {
                         let vals: Vec<Val> = c["vars"].as_array().map(|a| a.iter().map(|v| enc::json_to_val(&v[1]).unwrap()).collect()).unwrap_or_default();
